@@ -15,8 +15,8 @@ RULE = ("runs: algorithm in {NSGAII, EpsMOEA, OMOPSO, SMPSO}, N=2..10, G=1..6, n
         "monotone for m=1, population size constant at every acceptance step inside EpsMOEA; unit level: "
         "pop_acceptance on drawn populations (grid, antichain) with Pareto / epsilon comparators in its three "
         "categories. Non-trivial = G>=3, or a run with >= 1 injected failure / an acceptance case")
-ASSUMPTIONS = ["runs whose initial random designs collide are skipped and counted (a population with duplicate designs "
-               "legitimately shrinks under de-duplication)",
+ASSUMPTIONS = ["repeated designs in the start population (coarse declared precision, custom start lists) are part of the "
+               "domain: generation 1 may repeat a design, later generations may not",
                "epsilon comparator on separated values only; identical cost vectors under epsilon are classified by the "
                "tie-break, so only the weak clause is asserted there"]
 
@@ -45,7 +45,13 @@ def run_cases(draw):
         fails = keep
     return {"alg": draw(st.sampled_from(["NSGAII", "NSGAII", "EpsMOEA", "OMOPSO", "SMPSO"])), "n": n, "m": m,
             "N": draw(st.integers(2, 10)), "G": draw(st.integers(1, 6)), "seed": draw(st.integers(0, 2 ** 31)),
-            "fails": fails}
+            "fails": fails,
+            # objective landscape: smooth, plateaus (integer-valued costs: many distinct designs share a cost vector)
+            # or tiny magnitudes (all signed costs round to 0 at the stored precision)
+            "landscape": draw(st.sampled_from(["smooth", "smooth", "plateau", "tiny"])),
+            # start population: random, random on a coarse declared grid (repeated designs), or a custom list that
+            # names a design twice
+            "start": draw(st.sampled_from(["random", "random", "grid", "custom-twins"]))}
 
 
 def check_run(case):
@@ -65,8 +71,16 @@ def check_run(case):
             raise RuntimeError("injected")
         ok_calls.append(tuple(ind.vector))
         x = ind.vector
-        return [sum((xi - 0.3 * (j + 1)) ** 2 for xi in x) + 0.05 * j * x[0] for j in range(m)]
+        f = [sum((xi - 0.3 * (j + 1)) ** 2 for xi in x) + 0.05 * j * x[0] for j in range(m)]
+        if case.get("landscape") == "plateau":
+            f = [float(round(v)) for v in f]
+        elif case.get("landscape") == "tiny":
+            f = [v * 1e-12 for v in f]
+        return f
     ps = [{"name": "x%d" % i, "bounds": [-2.0, 3.0]} for i in range(n)]
+    if case.get("start") == "grid":
+        for p_ in ps:
+            p_["precision"] = 0.5
     cs = [{"name": "f%d" % j, "criteria": "minimize"} for j in range(m)]
     prob = make_problem(ps, cs, ev)
     seed_all(case["seed"])
@@ -84,6 +98,15 @@ def check_run(case):
                 alg = algorithm_class(case["alg"])(prob)
                 alg.options["max_population_size"] = N
                 alg.options["max_population_number"] = G
+                if case.get("start") == "custom-twins" and case["alg"] == "NSGAII":
+                    from artap.operators import CustomGenerator
+                    random.seed(case["seed"] + 1)
+                    vs = [[random.uniform(-2.0, 3.0) for _ in range(n)] for _ in range(N)]
+                    vs[-1] = list(vs[0])           # the same design twice in the start population
+                    gen = CustomGenerator(prob.parameters)
+                    gen.init(vs)
+                    alg.generator = gen
+                    seed_all(case["seed"])
                 alg.run()
         pops = prob.populations()
         pops = {k: list(v) for k, v in pops.items()}
@@ -92,8 +115,9 @@ def check_run(case):
     alg_name = case["alg"]
     first = 1 if alg_name == "NSGAII" else 0
     init = ok_calls[:N]
-    if len(set(init)) != len(init) and not fails:
-        return {"nt": False, "classes": ["skipped-initial-collision"]}
+    twins = len(set(init)) != len(init)     # repeated designs in the start population are legitimate input: the
+    #                                          N offspring are pairwise distinct, so every later generation still
+    #                                          has N distinct designs to choose from
     exp_keys = list(range(first, G + 1))
     exp_calls = N * G if alg_name == "NSGAII" else N * (G + 1)
     if len(ok_calls) != exp_calls:
@@ -137,7 +161,9 @@ def check_run(case):
                 raise Violation("runs", "EpsMOEA:working-population-size", "acceptance step changed the working "
                                 "population from %d to %d (N=%d)" % (a, b, N))
     return {"nt": G >= 3 or bool(fail_vecs), "classes": [alg_name, "G>=3" if G >= 3 else "G<3",
-                                                        "failures" if fail_vecs else "clean"]}
+                                                        "failures" if fail_vecs else "clean",
+                                                        case.get("landscape", "smooth"), "start:" + case.get("start", "random")]
+            + (["twins-in-start"] if twins else [])}
 
 
 # ---------------------------------------------------------------- pop_acceptance, unit level
@@ -218,6 +244,6 @@ def check_acceptance(case):
 
 
 CLAUSES = [
-    Clause("runs", run_cases(), check_run, quick=120, thorough=1000, quick_shards=4),
+    Clause("runs", run_cases(), check_run, quick=200, thorough=1500, quick_shards=4),
     Clause("acceptance", acceptance_cases(), check_acceptance, quick=3000, thorough=30000, quick_shards=2),
 ]
